@@ -203,13 +203,19 @@ func runWS(c Case, w *world) string {
 		pb = []byte(`{"query":` + string(mustJSON(c.query())) + `,"variables":` + c.Vars + `}`)
 	}
 	const opID = "op-1"
+	t0pre := time.Now()
+	graphql.ParseAndValidate(c.query(), theSchema, nil, graphql.ValidateCost(c.Op, nil, -1, nil, graphql.FieldCost{Resolver: 1}))
+	preTime := time.Since(t0pre)
 	send(`{"id":"` + opID + `","type":"` + startType + `","payload":` + string(pb) + `}`)
 
 	isSub := false
 	if doc, errs := parser.ParseDocument([]byte(c.query())); len(errs) == 0 && doc != nil {
 		isSub = graphql.IsSubscription(doc, c.Op)
 	}
-	deadline := time.Now().Add(6 * time.Second)
+	// the answer must come within 6 s plus 40 times what parsing and validating this very request (with the cost
+	// rule, as the server does) took in this process a moment ago — large documents take seconds to validate, and
+	// on a busy machine both times stretch together
+	deadline := time.Now().Add(6*time.Second + 40*preTime)
 	conn.SetReadDeadline(deadline)
 	gotData := 0
 	var obs []string
@@ -227,7 +233,7 @@ func runWS(c Case, w *world) string {
 				return "" // the server closed the connection: an answer (junk frames; malformed payload in the new protocol)
 			}
 			if time.Now().After(deadline.Add(-100 * time.Millisecond)) {
-				return fmt.Sprintf("websocket operation not answered within 6 s (%d data frames, no complete, connection open)", gotData)
+				return fmt.Sprintf("websocket operation not answered within 6 s + 40 x %s (%d data frames, no complete, connection open)", preTime.Round(time.Millisecond), gotData)
 			}
 			return "" // connection reset by the server side closing
 		}
